@@ -95,6 +95,15 @@ def instantiate(hyps, qhyps, goal, rounds=2, max_depth=2):
             pools = []
             if getattr(q, 'triggers', None):
                 for (decl, idx) in q.triggers:
+                    if isinstance(decl, str):
+                        v = q.vars[0]
+                        for t in gt.get(v.sort().name(), {}).values():
+                            if _depth(t) <= 1:
+                                key = (qi, t.get_id())
+                                if key not in done:
+                                    done.add(key)
+                                    new.append(z3.substitute(q.body, (v, t)))
+                        continue
                     idxs = idx if isinstance(idx, (tuple, list)) else (idx,)
                     for t in _apps_of(cur + [qq.body for qq in qhyps], decl, bound):
                         combo = tuple(t.arg(i) for i in idxs)
@@ -159,7 +168,10 @@ def _has_quant(f):
             continue
         seen.add(i)
         if z3.is_quantifier(t):
-            return True
+            if not t.is_lambda():
+                return True
+            stack.append(t.body())
+            continue
         stack.extend(t.children())
     return False
 
@@ -204,6 +216,26 @@ def universal_clauses(f):
     return [([], f)]
 
 
+def _auto_triggers(vs, body):
+    """an integer-indexed universal (forall j. ... a[j] ...) is instantiated at every index the problem
+    selects from an array of that sort, in addition to nothing else (single-variable case only)"""
+    if len(vs) != 1 or not z3.is_int(vs[0]):
+        return None
+    vid = vs[0].get_id()
+    trig = {}
+    stack = [body]
+    seen = set()
+    while stack:
+        t = stack.pop()
+        if t.get_id() in seen:
+            continue
+        seen.add(t.get_id())
+        stack.extend(t.children())
+        if z3.is_app(t) and t.decl().kind() == z3.Z3_OP_SELECT and t.arg(1).get_id() == vid:
+            trig[t.decl().get_id()] = (t.decl(), 1)
+    return list(trig.values()) + [('consts', 0)] if trig else None
+
+
 def prepare(formulas):
     """skolemise, split into ground formulas and universally quantified clauses"""
     ground, quants = [], []
@@ -219,24 +251,48 @@ def prepare(formulas):
             for h in sub:
                 for (vs, body) in universal_clauses(h):
                     if vs and not _has_quant(body):
-                        quants.append(QHyp(vs, body, 'spec'))
+                        quants.append(QHyp(vs, body, 'spec', _auto_triggers(vs, body)))
                     else:
                         ground.append(h if not vs else z3.ForAll(vs, body))
     return ground, quants
 
 
 def discharge(vc, use_cvc5=True):
+    """1. skolemise; universally quantified parts become instantiation schemes
+       2. decide the quantifier-free part plus the ground instances (z3, then cvc5 for an `unknown`)
+       3. unsat -> discharged.  sat -> before reporting, ask z3 once about the quantified problem itself."""
     t0 = time.time()
     base = list(vc.hyps) + [z3.Not(vc.goal)]
     ground, quants = prepare(base)
     qh = list(vc.qhyps) + quants
     inst = instantiate(ground, qh, z3.BoolVal(True))
+    qf = [f for f in ground + inst if not _has_quant(f)] + atom_facts()
+    leftover = [f for f in ground if _has_quant(f)]
     s = z3.Solver()
     s.set('timeout', Z3_TIMEOUT_MS)
-    fs = ground + inst + atom_facts()
-    s.add(*fs)
+    s.add(*qf)
     r = s.check()
-    if r == z3.sat and (quants or vc.qhyps) and vc.expect != 'sat':
+    backend = 'z3'
+    detail = ''
+    model = None
+    if r == z3.unknown:
+        detail = s.reason_unknown()
+        if use_cvc5:
+            st, d2 = run_cvc5(s.to_smt2())
+            detail += ' | cvc5: ' + d2
+            if st == 'unsat':
+                return Result(vc, 'unsat', 'cvc5', time.time() - t0, None, d2)
+            if st == 'sat':
+                r, backend = z3.sat, 'cvc5'
+    elif r == z3.sat:
+        model = s.model()
+    if r == z3.unsat:
+        return Result(vc, 'unsat', 'z3', time.time() - t0)
+    if vc.expect == 'sat':
+        if r == z3.sat:
+            return Result(vc, 'sat', backend, time.time() - t0, model, 'quantifier-free part with instances has a model')
+        return Result(vc, 'unknown', 'z3+cvc5', time.time() - t0, None, detail)
+    if r == z3.sat and (qh or leftover):
         # the ground instances have a model; ask z3 about the quantified problem itself before reporting
         s3 = z3.Solver()
         s3.set('timeout', 5000)
@@ -245,24 +301,8 @@ def discharge(vc, use_cvc5=True):
             s3.add(z3.ForAll(q.vars, q.body))
         if s3.check() == z3.unsat:
             return Result(vc, 'unsat', 'z3(quantified)', time.time() - t0)
-    if r == z3.unknown and vc.expect == 'sat':
-        # canaries only need non-refutation evidence: retry without the instantiated quantifiers
-        s2 = z3.Solver()
-        s2.set('timeout', Z3_TIMEOUT_MS)
-        s2.add(*(list(vc.hyps) + atom_facts()))
-        r2 = s2.check()
-        if r2 == z3.sat:
-            return Result(vc, 'sat', 'z3', time.time() - t0, None, 'ground part only')
-    if r == z3.unsat:
-        return Result(vc, 'unsat', 'z3', time.time() - t0)
     if r == z3.sat:
-        return Result(vc, 'sat', 'z3', time.time() - t0, s.model())
-    detail = s.reason_unknown()
-    if use_cvc5:
-        st, d2 = run_cvc5(s.to_smt2())
-        if st in ('sat', 'unsat'):
-            return Result(vc, st, 'cvc5', time.time() - t0, None, d2)
-        detail += ' | cvc5: ' + d2
+        return Result(vc, 'sat', backend, time.time() - t0, model, detail)
     return Result(vc, 'unknown', 'z3+cvc5', time.time() - t0, None, detail)
 
 
